@@ -69,6 +69,11 @@ BUILT = {
             "All byte strings of length <= 2 (thorough; quick: all of length <= 1 and a rotating slice of length 2) and a length grid up to LIMIT+2 in five content classes are packed with the published encoder and decoded with 0..3 '=' appended; raw / nada / zstd payloads of LIMIT-1, LIMIT, LIMIT+1 bytes forced by hand with and without declared frame size, 64 MiB bombs, unknown prefixes 3..255, degenerate and truncated strings: the decoder never panics and never yields more than the limit; 12 payloads x {deploy, call, transact} x padding submitted through the hex field and through the base64 field on twin instances give identical receipts and observations.",
             "A string the published encoder refuses to pack (incompressible, within ~0.1% of the limit) is outside the statement. Nothing is claimed for payloads outside the grid.",
             "DESIGN.md §4 C15"),
+    "C04": ("crash", "fault_enumeration",
+            "crash-point enumeration on the real write paths: a failpoint in front of every RocksDB put / delete / flush of the victim operation, reopen, recovery by reorg compared with a fresh replay",
+            "For every generated history (all sequences up to the stated length over block-building, idle blocks, commit and reorg that contain a successful commit) followed by a victim (commit, reorg 1 / 2 / W blocks back, finalisation of a block) the victim's persistent writes are counted on the real code and a crash (panic in front of the write, every handle dropped, directory reopened) is placed before each write and after the last one; for every eligible recovery height (committed before the crash, not above an attempted reorg target, inside the window) brc20_reorg must succeed and every answer of every read method must equal a fresh replay of the surviving history, also after one more block; a crash inside finalisation must lose only uncommitted work.",
+            "Crash model of the statement: process death between two RocksDB calls (the WAL makes exactly the completed writes visible); torn / unsynced writes after power loss are outside the property. Histories bounded in length.",
+            "DESIGN.md §4 C04"),
 }
 
 NOT_BUILT_REASON = "check not built yet in this round (planned in DESIGN.md §4); nothing is claimed for it"
@@ -106,6 +111,8 @@ def main():
         "engines": [
             {"name": "hist", "path": "/verif/mc/src/explore.rs", "serves_properties": [p for p in props if p in BUILT and BUILT[p][0] == "hist"],
              "kind_free_text": "history explorer: exhaustive enumeration of call sequences on the real engine (wipe + replay), protocol automaton + normal-form differential oracle"},
+            {"name": "crash", "path": "/verif/mc/src/props/c04.rs", "serves_properties": [p for p in props if p in BUILT and BUILT[p][0] == "crash"],
+             "kind_free_text": "crash-point enumerator over the persistent writes of commit / reorg / finalise (failpoints of hook H2), real close + reopen"},
             {"name": "store", "path": "/verif/mc/src/props/c13.rs", "serves_properties": [p for p in props if p in BUILT and BUILT[p][0] == "store"],
              "kind_free_text": "component explorer: BFS over the real store components against reference models; complete value grids through the real codecs"},
         ],
